@@ -5,22 +5,33 @@
    ----------------------------------------------------------------------------------------------
    holds exactly the bytes of the reference byte string
    after the same operations, same answers for length /
-   comparison / search / prefix / suffix queries          -> string_refines_values (all 50 operations,
+   comparison / search / prefix / suffix queries          -> string_refines_values (all 56 operations,
                                                              all histories; results and values)
    no bounds error / use after free / foreign write        -> run_memory_safe
    C-string view NUL-terminated at length()                -> cstr_nul_terminated
    modifying one String never changes another String       -> copies_independent
-   ... nor the literal or attached memory                  -> foreign_memory_unchanged
-   including when an argument is the String itself         -> self_args_as_if_copied (+ the self cases
-                                                             inside string_refines_values)
+   ... nor the literal or attached memory                  -> run_memory_safe (a write through a non-owning
+                                                             descriptor is Err WriteForeign in the model: it never
+                                                             happens) + foreign_memory_kept.  NOTE: the model has no
+                                                             operation that writes [regs], so foreign_memory_unchanged
+                                                             and foreign_memory_kept are structural facts (regs only
+                                                             grows); what carries the clause is run_memory_safe on the
+                                                             model side and the guarded, re-read foreign memory of the
+                                                             harness (M=ok) on the code side.
+   including when an argument is the String itself         -> self_args_as_if_copied (String arguments) + the cases
+                                                             OAppendOwn / OPrintfSelf (a const char pointer INTO the own
+                                                             text handed to append / printf) inside string_refines_values
    lazy-copy bookkeeping (ref = number of handles, no
    handle to a freed block, everything freed at the end)   -> heap_invariant
    case mapping through the tables of String.cpp           -> case_tables_are_ascii
    every visible byte is an initialised byte 0..255 (so the
    byte-range half of the domain predicate always holds on
    reachable states; only NUL-freeness restricts it)        -> values_are_bytes, visible_cells_initialised
-   printf: the bytes vsnprintf produced are an input of the operation (modelled as input);
-   strstr / strpbrk / strchr are reference functions on NUL-free text (trusted). *)
+   printf: the bytes vsnprintf produces are an input of the operation (they may depend on the String's own old
+   text: OPrintfSelf); strstr / strpbrk / strchr are reference functions on NUL-free text (trusted).
+   Domain (StrSpec.pre): trim, ==, compare*, equalsIgnoreCase, startsWith/endsWith, find(char) are total on byte
+   strings; token / split / replace(String,String) / find*(const char pointer) / the static helpers are specified
+   for NUL-free values (they are built on the C-string searches). *)
 From Coq Require Import ZArith List Bool.
 From Common Require Import Words ListAux.
 From Str Require Import StrSpec StrModel StrInv StrFun StrMain StrWf.
@@ -54,6 +65,12 @@ Theorem foreign_memory_unchanged : forall w o w' r, Inv w -> step w o = Ok (w', 
   exists ext, regs w' = regs w ++ ext.
 Proof. exact foreign_memory_unchanged_thm. Qed.
 Print Assumptions foreign_memory_unchanged.
+
+Theorem foreign_memory_kept : forall ops1 ops2 w1 outs1 w2 outs2,
+  run winit ops1 = Ok (w1, outs1) -> run w1 ops2 = Ok (w2, outs2) ->
+  forall r, r < length (regs w1) -> nth_error (regs w2) r = nth_error (regs w1) r.
+Proof. exact foreign_memory_kept_thm. Qed.
+Print Assumptions foreign_memory_kept.
 
 Theorem self_args_as_if_copied : forall k w v x, Inv w ->
   has (abs w) v = true -> has (abs w) x = true -> pre (abs w) (self_op k v v x) = true ->
@@ -135,3 +152,28 @@ Example self_prepend_instance :
     pre (abs w) (self_op SPrepend 0 0 0) = true /\
     (exists w1 r1, step w (self_op SPrepend 0 0 0) = Ok (w1, r1) /\ value w1 0 = [97;98;97;98]%Z).
 Proof. vm_compute. eexists. repeat split. eexists _, _. repeat split. Qed.
+
+(* a pointer into the own text as argument of append and printf; comparisons and trim on text with
+   embedded NUL bytes; the literal ==, the set split, fromPrintf and the static helpers *)
+Definition demo2 : list op :=
+  [OBuf [97;98;99]%Z; OAppendOwn 0 1 2; OPrintfSelf 0 [60]%Z [62]%Z;
+   OBuf [97;0;98]%Z; OBuf [97;0;99]%Z; OCompare 1 2; OEqualsIC 1 2; OTrim 1 [32]%Z; OBuf [0;97;0]%Z; OTrim 3 [97]%Z;
+   OEqLit 0 [60;97;98;99;98;99;62]%Z; OLit [98;44;97;44;98]%Z; OSplitSet 4 [44]%Z true; OFromPrintf [120;121]%Z;
+   OStat QStartsWith 0 5; OStat (QCompareN 1) 4 5].
+
+Example demo2_in_domain :
+  exists s outs, spec_run sinit demo2 = Some (s, outs) /\
+    svals s = [[60;97;98;99;98;99;62]; [97;0;98]; [97;0;99]; [0;97;0]; [98;44;97;44;98]; [120;121]]%Z /\
+    nth 5 outs RNone = RInt (-1)%Z /\ nth 6 outs RNone = RInt 0%Z /\ nth 10 outs RNone = RInt 1%Z /\
+    nth 12 outs RNone = RList [[97]; [98]]%Z /\ nth 14 outs RNone = RInt 0%Z /\ nth 15 outs RNone = RInt (-1)%Z.
+Proof. vm_compute. eexists _, _. split; [reflexivity|]. split; [reflexivity|]. split; [reflexivity|]. split; [reflexivity|]. split; [reflexivity|]. split; [reflexivity|]. split; reflexivity. Qed.
+
+Example demo2_model_agrees :
+  exists w outs, run winit demo2 = Ok (w, outs) /\ Some (abs w, outs) = spec_run sinit demo2 /\ live_blocks w = 5.
+Proof. vm_compute. eexists _, _. split; [reflexivity|]. split; reflexivity. Qed.
+
+Example foreign_kept_instance :
+  exists w1 o1 w2 o2, run winit [OReg [120;121;33]%Z; ONew; OAttach 0 0 0 2] = Ok (w1, o1) /\
+    run w1 [OAppendC 0 122%Z; OPoke 0 0 65%Z] = Ok (w2, o2) /\ nth_error (regs w2) 0 = Some [120;121;33]%Z /\
+    value w2 0 = [65;121;122]%Z.
+Proof. vm_compute. eexists _, _, _, _. split; [reflexivity|]. split; [reflexivity|]. split; reflexivity. Qed.
